@@ -1140,6 +1140,12 @@ func (f *Frugal) validateConstant(constant *Constant) error {
 		return nil
 	}
 
+	return f.validateIdentifier(identifier)
+}
+
+// validateIdentifier makes sure the constant or enum value named by the
+// identifier exists.
+func (f *Frugal) validateIdentifier(identifier Identifier) error {
 	// The value of a constant is the name of another constant,
 	// make sure it exists
 	name := string(identifier)
@@ -1322,6 +1328,9 @@ func (f *Frugal) validateValue(typ *Type, value interface{}) error {
 	}
 
 	if identifier, ok := value.(Identifier); ok {
+		if err := f.validateIdentifier(identifier); err != nil {
+			return err
+		}
 		if (t.IsContainer() || f.findStructLike(t) != nil) && f.isEnumValue(identifier) {
 			return mismatch("a list or map, not the enum value " + string(identifier))
 		}
